@@ -13,7 +13,7 @@ printer (`ty_print`, `method_print`) are specification functions written from JV
 from vx.unit import C
 
 PROPS = ['C18']
-RLIMIT = 60
+RLIMIT = 100
 F = 'duke/src/tree/descriptor.rs'
 
 NEWTYPES = ['ObjClassName', 'ClassName', 'FieldDescriptor', 'MethodDescriptor', 'ReturnDescriptor']
